@@ -63,6 +63,27 @@ type result struct {
 var theAddrs []address.Address
 var theLogins []string
 
+// runScenario executes a scenario script (overlapping broadcasts allowed) on a fresh node.
+func runScenario(ops []Op) result {
+	r := &Run{w: newWorld(theAddrs, theLogins), multi: true}
+	var err error
+	for _, op := range ops {
+		if err = r.exec(op); err != nil {
+			if err == errPruned && r.validRejected {
+				// the script counted on a block the server refused although the share met its target: what was executed
+				// is the case (the property fails in it)
+				r.w.note("script stopped before %s: an earlier share that met the target sent with its job was not accepted", op.String())
+				err = nil
+			} else if err == errPruned {
+				err = fmt.Errorf("scenario step %s cannot be executed in the state reached", op.String())
+			}
+			break
+		}
+	}
+	r.finish()
+	return result{run: r, err: err}
+}
+
 // runScript executes ops on a fresh node. maxMiners bounds the connections offered by avail.
 func runScript(ops []Op, maxMiners int) result {
 	r := &Run{w: newWorld(theAddrs, theLogins)}
@@ -101,7 +122,7 @@ func availOps(r *Run, maxMiners int) []Op {
 		if !m.alive {
 			continue
 		}
-		if m.pending {
+		if m.pending() {
 			ops = append(ops, Op{Kind: 'N', Cid: c})
 			continue
 		}
@@ -193,6 +214,132 @@ func witnesses() [][]Op {
 	}
 }
 
+// ---- scenario scripts: overlapping broadcasts with different difficulties, shares across a seed period ----
+//
+// The chain is extended through the stratum server itself: a miner submits, for the job it holds, a merge-mining blob
+// that names this chain only and carries the timestamp the script wants (the real SetMiningBlob path). With block 1
+// dated two hours back and the following blocks 100 ms apart the difficulty of the next block rises by about a third
+// per block; a block dated two minutes after its parent makes it fall. Everything is decided by the real
+// GetBlockTemplate / GetNextDifficulty; in a configuration with MIN_DIFFICULTY 1 (unittest) the same scripts run with
+// every difficulty 1 and exercise the bookkeeping of the queued broadcasts only.
+
+func sub(cid, sel int, nonce uint32, mine, merge, ts string) Op {
+	return Op{Kind: 'S', Cid: cid, Sel: sel, Nonce: nonceHex(nonce), Mine: mine, Merge: merge, Ts: ts}
+}
+func subPick(cid int, pick string, nonce uint32, mine, merge, ts string) Op {
+	return Op{Kind: 'S', Cid: cid, Pick: pick, Nonce: nonceHex(nonce), Mine: mine, Merge: merge, Ts: ts}
+}
+
+// grow: template, login of miner 1, then n blocks found by miner 1: the first dated `first`, the others 100 ms apart.
+func grow(n int, first string) []Op {
+	ops := []Op{{Kind: 'T'}, {Kind: 'L', Cid: 1, Addr: 1}}
+	for i := 0; i < n; i++ {
+		ts := "par+100"
+		if i == 0 {
+			ts = first
+		}
+		ops = append(ops, sub(1, 0, uint32(100000*(i+1)), "any", "own", ts))
+	}
+	return ops
+}
+
+type scenario struct {
+	name string
+	ops  []Op
+}
+
+func scenarios() []scenario {
+	var sc []scenario
+	add := func(name string, ops ...[]Op) {
+		var all []Op
+		for _, o := range ops {
+			all = append(all, o...)
+		}
+		sc = append(sc, scenario{name, all})
+	}
+	L := func(cid, addr int) Op { return Op{Kind: 'L', Cid: cid, Addr: addr} }
+	N := func(cid int) Op { return Op{Kind: 'N', Cid: cid} }
+	T := Op{Kind: 'T'}
+
+	// two broadcasts queued on miner 1's connection, the second one with a LOWER difficulty (miner 2 finds a block
+	// dated two minutes after its parent in between); both jobs are then mined at the target they were sent with
+	for _, k := range []int{4, 5} {
+		add(fmt.Sprintf("overlap-lower-%d", k), grow(k, "now-7200000"), []Op{
+			L(2, 2), T, N(2),
+			sub(2, 0, 7000, "hit", "own", "par+120000"),
+			N(1),
+			subPick(1, "low", 7100, "hit", "", ""),
+			subPick(1, "high", 7200, "hit", "", ""),
+			N(2),
+			sub(2, 1, 7300, "hit", "", ""),
+		})
+	}
+	// the second broadcast with a HIGHER difficulty (blocks 100 ms apart)
+	add("overlap-higher", grow(3, "now-7200000"), []Op{
+		L(2, 2), T, N(2),
+		sub(2, 0, 7400, "hit", "own", "par+100"),
+		N(1),
+		subPick(1, "low", 7500, "hit", "", ""),
+		subPick(1, "high", 7600, "hit", "", ""),
+	})
+	// three broadcasts queued on miner 1 (rising, then falling), a login in between, a near miss
+	add("overlap-three", grow(3, "now-7200000"), []Op{
+		L(2, 2), T, N(2),
+		sub(2, 0, 7700, "hit", "own", "par+100"),
+		L(3, 3),
+		sub(2, 0, 7800, "hit", "own", "par+120000"),
+		N(1), N(3),
+		subPick(1, "low", 7900, "miss", "", ""),
+		subPick(1, "low", 8000, "hit", "", ""),
+		subPick(1, "high", 8200, "hit", "", ""),
+		N(3),
+		sub(3, 1, 8100, "hit", "", ""),
+	})
+	// broadcasts queued on two miners and released in the other order; the manual template repeated
+	add("overlap-both", grow(4, "now-7200000"), []Op{
+		L(2, 2), L(3, 3), T, N(3),
+		sub(3, 0, 8300, "hit", "own", "par+120000"),
+		T,
+		N(2), N(1),
+		subPick(2, "low", 8400, "hit", "", ""),
+		subPick(1, "low", 8500, "hit", "own+f", "par+200"),
+		subPick(1, "high", 8600, "hit", "", ""),
+		N(2),
+		sub(2, 1, 8700, "miss", "", ""),
+	})
+
+	// shares whose merge-mining blob lies in another seed period than the job: last millisecond of the period before
+	// (accepted: the chain is still at the genesis block, whose timestamp is 0), first millisecond of the period
+	// after (proof of work passes, the chain then refuses a block that far ahead)
+	add("seed-prev", []Op{T, L(1, 1),
+		sub(1, 0, 9000, "hit", "own", "prev"),
+		sub(1, 0, 9100, "hit", "own+f", "prev"),
+		sub(1, 0, 9200, "hit", "", ""),
+	})
+	add("seed-next", []Op{T, L(1, 1),
+		sub(1, 0, 9300, "hit", "own", "next"),
+		sub(1, 0, 9400, "miss", "own", "next"),
+		sub(1, 0, 9500, "hit", "", ""),
+	})
+	// the same at a raised difficulty: the chain is grown inside the previous seed period
+	add("seed-prev-raised", grow(5, "prev-60000"), []Op{
+		sub(1, 0, 9600, "hit", "own", "prev"),
+		sub(1, 0, 9700, "miss", "own", "prev"),
+		sub(1, 0, 9800, "hit", "own", "next"),
+		sub(1, 0, 9900, "hit", "", ""),
+	})
+	// two miners, jobs of two templates, blobs on both sides of both boundaries
+	add("seed-both", grow(3, "prev-60000"), []Op{
+		L(2, 2),
+		sub(2, 0, 10000, "hit", "own+f", "prev"),
+		N(1),
+		sub(1, 1, 10100, "hit", "own", "prev"),
+		sub(1, 0, 10200, "hit", "own", "next"),
+		sub(1, 0, 10300, "hit", "own", "prev"),
+	})
+	return sc
+}
+
 func famC15(out string) {
 	t0 := time.Now()
 	initShared()
@@ -208,8 +355,32 @@ func famC15(out string) {
 	e := &emitter{sink: sink, kinds: map[string]int{}, seen: map[string]bool{}}
 	thorough := hutil.Tier() == "thorough"
 
+	powReal := config.MIN_DIFFICULTY > 1 // proof of work is real (verifnet, testnet): scenario scripts and mined random scripts only
+	for i, sc := range scenarios() {
+		if i%nshards != shard {
+			continue
+		}
+		if f := os.Getenv("VERIF_C15_SCENARIO"); f != "" && !strings.HasPrefix(sc.name, f) { // debugging aid
+			continue
+		}
+		ts := time.Now()
+		res := runScenario(sc.ops)
+		if os.Getenv("VERIF_C15_DEBUG") != "" {
+			fmt.Fprintf(os.Stderr, "== %s (%.1fs) err=%v\n", sc.name, time.Since(ts).Seconds(), res.err)
+			for _, st := range res.run.steps {
+				fmt.Fprintln(os.Stderr, "   ", st.Human)
+			}
+		}
+		e.emit("scenario:"+sc.name, sc.ops, res)
+	}
+	nScen := sink.Len()
+	if os.Getenv("VERIF_C15_SCENARIO") != "" {
+		sink.Close()
+		return
+	}
+
 	for _, ops := range witnesses() {
-		if shard != 0 {
+		if shard != 0 || powReal {
 			break
 		}
 		// the second witness contains a placeholder notify of nobody: drop it
@@ -250,13 +421,18 @@ func famC15(out string) {
 			explore(append(append([]Op{}, prefix...), op))
 		}
 	}
-	explore([]Op{{Kind: 'T'}})
-	nExh := sink.Len()
+	if !powReal {
+		explore([]Op{{Kind: 'T'}})
+	}
+	nExh := sink.Len() - nScen
 
 	// random part: longer scripts, more miners, malformed and boundary submissions, disconnects, history window
 	nr := 240 * budget()
 	if thorough {
 		nr = 4000 * budget()
+	}
+	if powReal {
+		nr /= 5 // every submission is mined: a few dozen hashes each
 	}
 	nrun := 0
 	for i := 0; i < nr; i++ {
@@ -269,7 +445,12 @@ func famC15(out string) {
 		e.emit("random", ops, res)
 	}
 
-	sink.Meta["rule"] = "scripted interleavings of login / new template / per-connection job notification / submit / disconnect against the real stratum server (net.Pipe miners, in-memory store, unittest configuration): the fixed witnesses of R6 and R5; every sequence of " + fmt.Sprint(depth) + " events after the first template over at most 3 miners (notification order controlled through the connection locks); random scripts of up to 16 events over up to 5 miners with short/odd nonces, extra-nonce overrides, merge-mining blobs, unknown and foreign job ids, evicted jobs, disconnects. A class is (generator, event kinds in order, set of outcomes)."
+	if powReal {
+		sink.Meta["rule"] = "real proof of work (" + config.NETWORK_NAME + ", MIN_DIFFICULTY " + fmt.Sprint(config.MIN_DIFFICULTY) + "): scenario scripts against the real stratum server (net.Pipe miners, in-memory store) - the chain is grown through the server itself so that consecutive templates have different difficulties; two or three SendJob broadcasts queued on one connection (lower, higher, mixed difficulties; logins in between; connections released in either order), every job then mined at the target that was sent with it (weakest share of a batch) and submitted; shares whose merge-mining blob lies in the previous / next seed period (last / first millisecond), mined with the blob's own seed so that they fail under the job's seed; near misses - and random scripts of up to 16 events over up to 5 miners with mined, near-miss and raw nonces, overlapping broadcasts, merge-mining blobs with moved timestamps. A class is (generator, event kinds in order, set of outcomes)."
+	} else {
+		sink.Meta["rule"] = "scripted interleavings of login / new template / per-connection job notification / submit / disconnect against the real stratum server (net.Pipe miners, in-memory store, " + config.NETWORK_NAME + " configuration): the scenario scripts with overlapping broadcasts and merge-mining blobs across seed periods (difficulty 1 here: bookkeeping only); the fixed witnesses of R6 and R5; every sequence of " + fmt.Sprint(depth) + " events after the first template over at most 3 miners (notification order controlled through the connection locks); random scripts of up to 16 events over up to 5 miners with short/odd nonces, extra-nonce overrides, merge-mining blobs, unknown and foreign job ids, evicted jobs, disconnects. A class is (generator, event kinds in order, set of outcomes)."
+	}
+	sink.Meta["scenarios"] = nScen
 	sink.Meta["exhaustive_depth"] = depth
 	sink.Meta["shard0_exhaustive_cases"] = nExh
 	sink.Meta["shard0_scripts_executed"] = executed + nrun
@@ -302,7 +483,8 @@ func famC15(out string) {
 func randomScript(rng *hutil.Rng) ([]Op, result) {
 	maxM := 2 + rng.Intn(4)
 	length := 6 + rng.Intn(11)
-	r := &Run{w: newWorld(theAddrs, theLogins)}
+	// where proof of work is real, broadcasts may overlap on a connection (the unittest corpus is left as it was)
+	r := &Run{w: newWorld(theAddrs, theLogins), multi: config.MIN_DIFFICULTY > 1}
 	var ops []Op
 	var err error
 	if rng.Intn(8) != 0 {
@@ -324,7 +506,7 @@ func randomScript(rng *hutil.Rng) ([]Op, result) {
 			}
 			cand = append(cand, Op{Kind: 'L', Cid: n + 1, Addr: a}, Op{Kind: 'L', Cid: n + 1, Addr: a})
 		}
-		if !r.anyPending(-1) {
+		if !r.anyPending(-1) || r.multi {
 			cand = append(cand, Op{Kind: 'T'})
 		}
 		cids := []int{}
@@ -337,7 +519,7 @@ func randomScript(rng *hutil.Rng) ([]Op, result) {
 			if !m.alive {
 				continue
 			}
-			if m.pending {
+			if m.pending() {
 				cand = append(cand, Op{Kind: 'N', Cid: c}, Op{Kind: 'N', Cid: c}, Op{Kind: 'N', Cid: c})
 				continue
 			}
@@ -386,6 +568,13 @@ func randomScript(rng *hutil.Rng) ([]Op, result) {
 					op.Merge = "f+own"
 				case 3:
 					op.Merge = []string{"garbage", "ownown", "empty"}[rng.Intn(3)]
+				}
+			}
+			if config.MIN_DIFFICULTY > 1 && op.Sel >= 0 {
+				// proof of work is real: most submissions are mined at the target sent with the job
+				op.Mine = []string{"hit", "hit", "any", "miss", ""}[rng.Intn(5)]
+				if rng.Intn(3) == 0 && (op.Merge == "own" || op.Merge == "own+f" || op.Merge == "f+own" || op.Merge == "ownown") {
+					op.Ts = []string{"prev", "next", "par+100", "par+120000"}[rng.Intn(4)]
 				}
 			}
 			cand = append(cand, op, op)
